@@ -178,12 +178,39 @@ def representation(chk):
     dq = repo.cls("AWQBitsDequantizer").own("forward")
     site = f"{mi.rel}:{init.lineno}"
     isrc, dsrc = U(init), U(dq)
-    # constructor transformations
-    t_data = "ungrouped = ungroup(data, axis=0, orig_shape=size)" in isrc and "data = AWQPackedTensor.pack(ungrouped, packing=AWQPacking.V2)" in isrc
-    t_scale = "scale = scale.reshape(out_features, in_features // group_size).t().contiguous()" in isrc
-    t_zp = "zeropoint = zeropoint.reshape(out_features, in_features // group_size).t()" in isrc and "zeropoint = (-zeropoint * scale).contiguous()" in isrc
+    # constructor transformations, read from the arguments handed to the base constructor on the raw-payload path
+    sup_args = None
+    for p_ in paths_of(init):
+        if p_.end[0] == "raise" or path_facts(p_).get("isinstance(data, AWQPackedTensor)") is not False:
+            continue
+        for ef in p_.effects:
+            if ef[0] == "expr" and isinstance(ef[1], ast.Call) and U(ef[1].func) == "super().__init__":
+                sup_args = ef[1].args
+    if sup_args is None or len(sup_args) < 8:
+        chk.unknown("C15.R5", site, "AWQBitsTensor.__init__: base constructor call on the raw-payload path not found")
+        return
+
+    class _Strip(ast.NodeTransformer):
+        def visit_Call(self, node):
+            self.generic_visit(node)
+            if isinstance(node.func, ast.Attribute) and node.func.attr == "contiguous" and not node.args:
+                return node.func.value
+            return node
+
+    import copy
+    d_t, s_t, z_t = (_Strip().visit(copy.deepcopy(x)) for x in (sup_args[5], sup_args[6], sup_args[7]))
+    shape = "(size[0], size[1] // group_size)"
+    want_data = ("AWQPackedTensor.pack(ungroup(data, axis=0, orig_shape=size), packing=AWQPacking.V2)",)
+    t_data = U(d_t) in want_data
+    want_scale = f"scale.reshape{shape}.t()"
+    t_scale = U(s_t) == want_scale
+    zt = f"zeropoint.reshape{shape}.t()"
+    zp_poly = poly.poly(z_t)
+    t_zp = zp_poly == {tuple(sorted((want_scale, zt))): -1}
+    chk.require("C15.R5", site, t_data, f"optimised constructor: codes un-grouped then packed v2 (`{U(d_t)[:90]}`)", "AWQBitsTensor.__init__", "constructor payload", "every optimised tensor: the kernel reads codes in another order")
+    chk.require("C15.R5", site, t_scale, f"optimised constructor: scale reshaped to (out, groups) and transposed (`{U(s_t)[:80]}`)", "AWQBitsTensor.__init__", "constructor scale", "every optimised tensor with several groups")
+    chk.require("C15.R5", site, t_zp, f"optimised constructor: zero-point stored as -(zp reshaped/transposed) * (scale reshaped/transposed): `{U(z_t)[:110]}`", "AWQBitsTensor.__init__", "constructor zero-point", "every optimised tensor: dequantized values are offset by 2*zp*scale (wrong sign) or by an unscaled zero-point")
     if not (t_data and t_scale and t_zp):
-        chk.unknown("C15.R5", site, "AWQBitsTensor.__init__: constructor transformations not in the recognised form")
         return
     # layouts: scale (out*G, 1) -> reshape(out, G) -> t -> (G, out); dequantizer: .t() -> (out, G) -> reshape(n, 1)
     a, G = Mono(1, "out"), Mono(1, "G")
